@@ -16,7 +16,9 @@ for d in sorted(glob.glob(os.path.join(ROOT, 'seeded', '*'))):
     own = [x for x in last_caught if x['check'] == os.path.basename(d).split('-')[0]]
     now = (own or last_caught)[-1] if last_caught else None
     files = ', '.join(os.path.basename(f) for f in m.get('files', []))
-    if m.get('superseded'):
+    if m.get('judged') and not now:
+        now_txt = 'not caught -- judged not to violate the property as stated (round j text)'
+    elif m.get('superseded'):
         now_txt = 'superseded by a repair of the line it edits (kept as history)'
     else:
         now_txt = ('%s %s: %s' % (now['check'], now['tier'], ', '.join('`%s`' % x for x in now['monitors'][:3]))) if now else '**not caught**'
